@@ -63,12 +63,19 @@ def main():
     for sid in ids:
         if only and sid not in only:
             continue
+        meta = json.load(open(os.path.join(VERIF, "seeded", sid, "meta.json")))
+        if meta.get("status") == "neutralised":
+            # the change no longer breaks the property on the current tree (its demo passes): a "fix:" commit
+            # removed the defect it relied on; kept for the record, nothing to catch
+            print("%-28s %s        NEUTRALISED | %s" % (sid, meta["property"], meta.get("status_note", "")[:200]), flush=True)
+            continue
+        tier = meta.get("tier", a.tier)
         props = None
         if a.all_props:
             # the checks that drive the code the seed touches (same world)
             own = json.load(open(os.path.join(VERIF, "seeded", sid, "meta.json")))["property"]
             props = next(g for g in (["C01", "C02", "C03"], ["C04", "C05"], ["C13"], ["C20"]) if own in g)
-        for sid_, prop, verdict, dt in run_one(sid, a.tier, a.runs, props):
+        for sid_, prop, verdict, dt in run_one(sid, tier, a.runs or meta.get("runs", 0), props):
             print("%-28s %s %6.1fs %s" % (sid_, prop, dt, verdict), flush=True)
             if not a.all_props and not verdict.startswith("CAUGHT"):
                 bad += 1
